@@ -233,7 +233,7 @@ theorem Inv_flushAtom (R : ViewRel) (s s' : PState) (F : KFs) (h : Inv R s F) (o
           rw [mem_flatten_map]
           exact ⟨(s.fsst, lvl), aget_mem _ _ _ hg, by show e ∈ entsOfTable s.tcont s.fsst; rw [h5b]; exact he⟩
 
-/-- the side condition of `HistOk` for one step -/
+/-- the side condition of `SchedHistOk` for one step -/
 def StepOk (R : ViewRel) (p : PState) : Sched → Prop
   | .compact ins outs => R.r (outs.map (·.2)).flatten (ins.map p.tableEnts).flatten
   | _ => True
